@@ -872,6 +872,47 @@ Section FilterProofs.
     - rewrite Hq3 in Hs. inversion Hs; subst; clear Hs. split; [destruct s; reflexivity|]. left.
       cbn [app]. rewrite term_writes_app, term_writes_clips. reflexivity.
   Qed.
+
+  (* the statements of the property, from an idle state *)
+  Theorem out_transparent_idle : forall cs (s s' : state) ob,
+    idle s = true -> all_quiet s (map EvOut cs) = true -> out_pump s cs = (s', ob) ->
+    term_writes ob = cs /\ server_writes ob = [] /\ idle s' = true /\ trace_on s' = trace_on s.
+  Proof.
+    intros cs s s' ob Hi Hq Hr. destruct (idle_calm s Hi) as (Hc & Hh).
+    destruct (out_transparent cs s s' ob Hc Hq Hr) as (T & S & C & H & Tr).
+    split; [exact T|split; [exact S|split; [|exact Tr]]]. apply calm_idle; auto. congruence.
+  Qed.
+
+  Theorem all_interleavings_idle : forall es (s s' : state) ob,
+    idle s = true -> all_quiet s es = true -> run s es = (s', ob) ->
+    term_writes ob = out_chunks _ es /\
+    concat (server_writes ob) ++ held_bytes s' = concat (in_chunks _ es) /\
+    calm s' /\ (held s' = None -> idle s' = true).
+  Proof.
+    intros es s s' ob Hi Hq Hr. destruct (idle_calm s Hi) as (Hc & Hh).
+    destruct (run_calm es s s' ob Hc Hq Hr) as (C & T & S).
+    unfold Filter.held_bytes in S at 2. rewrite Hh in S. cbn [app] in S.
+    split; [exact T|split; [exact S|split; [exact C|]]]. intros X. apply calm_idle; auto.
+  Qed.
+
+  Theorem in_transparent_nohold_idle : (forall b, d_win (drag_detect b) = false) ->
+    forall cs (s s' : state) ob,
+    idle s = true -> all_quiet s (map EvIn cs) = true -> in_pump s cs = (s', ob) ->
+    server_writes ob = cs /\ term_writes ob = [] /\ idle s' = true.
+  Proof.
+    intros Hnw cs s s' ob Hi Hq Hr. destruct (idle_calm s Hi) as (Hc & Hh).
+    destruct (in_transparent_nohold Hnw cs s s' ob Hc Hh Hq Hr) as (S & T & C & H).
+    split; [exact S|split; [exact T|]]. apply calm_idle; auto.
+  Qed.
+
+  Theorem near_miss_idle : forall (s s' : state) c ob,
+    idle s = true -> quiet s (EvOut c) = true -> out_step s c = (s', ob) ->
+    term_writes ob = [c] /\ server_writes ob = [] /\ idle s' = true.
+  Proof.
+    intros s s' c ob Hi Hq Hs. destruct (idle_calm s Hi) as (Hc & Hh).
+    destruct (out_step_calm s c s' ob Hc Hq Hs) as (C & T & S & H & _).
+    split; [exact T|split; [exact S|]]. apply calm_idle; auto. congruence.
+  Qed.
 End FilterProofs.
 
 (* ------------------------------------------------------------------------------------ *)
@@ -1042,3 +1083,114 @@ Section OscInert.
       split; auto. rewrite !no_clip_app, S2, R2. reflexivity.
   Qed.
 End OscInert.
+
+(* ------------------------------------------------------------------------------------ *)
+(* drag.go on Linux: what "the chunk is ENTIRELY a list of existing paths" means           *)
+
+Inductive tok := TQuoted (p : path) | TPlain (p : path).
+Definition tok_path (t : tok) : path := match t with TQuoted p => p | TPlain p => p end.
+Definition render (t : tok) : list N :=
+  match t with
+  | TQuoted p => drag_quote :: p ++ [drag_quote; drag_space]
+  | TPlain p => p ++ [drag_space]
+  end.
+
+Lemma linux_never_holds : forall ex b, d_win (detect_drag_linux ex b) = false.
+Proof. intros ex b. unfold detect_drag_linux. destruct (strip_paste b); reflexivity. Qed.
+
+Lemma index_byte_spec : forall b l i, index_byte b l = Some i -> l = firstn i l ++ b :: skipn (S i) l.
+Proof.
+  intros b l. induction l as [|x l IH]; intros i H; cbn in H; [discriminate|].
+  destruct (x =? b) eqn:E.
+  - inversion H; subst. apply N.eqb_eq in E. subst. reflexivity.
+  - destruct (index_byte b l) as [j|]; [|discriminate]. inversion H; subst.
+    cbn [firstn skipn app]. f_equal. apply IH. reflexivity.
+Qed.
+
+Lemma nth_error_skipn : forall (l : list N) n c, nth_error l n = Some c -> skipn n l = c :: skipn (S n) l.
+Proof.
+  induction l as [|x l IH]; intros n c H; destruct n; cbn in *; try discriminate.
+  - inversion H; reflexivity.
+  - apply IH; auto.
+Qed.
+
+Lemma next_linux_path_sound : forall buf p i, next_linux_path buf = Some (p, i) ->
+  exists t, tok_path t = p /\ buf = render t ++ skipn i buf.
+Proof.
+  intros buf p i H. unfold next_linux_path in H.
+  destruct (length buf <? N.to_nat drag_min_len)%nat; [discriminate|].
+  destruct buf as [|q [|s r]]; try discriminate.
+  destruct ((q =? drag_quote) && (s =? drag_slash)) eqn:Eq.
+  - apply andb_prop in Eq. destruct Eq as [Eq1 Eq2]. apply N.eqb_eq in Eq1. subst q.
+    cbn [tl] in H.
+    destruct (index_byte drag_quote (s :: r)) as [j|] eqn:Ej; [|discriminate].
+    destruct (nth_error (drag_quote :: s :: r) (S (S j))) as [c|] eqn:En; [|discriminate].
+    destruct (c =? drag_space) eqn:Ec; [|discriminate]. apply N.eqb_eq in Ec. subst c.
+    inversion H; subst; clear H.
+    exists (TQuoted (firstn j (s :: r))). split; [reflexivity|].
+    pose proof (index_byte_spec _ _ _ Ej) as Hs.
+    cbn [nth_error] in En. apply nth_error_skipn in En.
+    replace (j + 3)%nat with (S (S (S j))) by lia.
+    change (skipn (S (S (S j))) (drag_quote :: s :: r)) with (skipn (S j) r).
+    cbn [render]. cbn [app]. f_equal.
+    rewrite <- app_assoc. cbn [app].
+    etransitivity; [exact Hs|]. f_equal. f_equal.
+    change (skipn (S j) (s :: r)) with (skipn j r). exact En.
+  - destruct (q =? drag_slash) eqn:Es; [|discriminate].
+    destruct (index_byte drag_space (q :: s :: r)) as [j|] eqn:Ej; [|discriminate].
+    inversion H; subst; clear H.
+    exists (TPlain (firstn j (q :: s :: r))). split; [reflexivity|].
+    cbn [render]. rewrite <- app_assoc. cbn [app]. apply index_byte_spec. exact Ej.
+Qed.
+
+Lemma linux_loop_sound : forall ex fuel rest acc hd fs hd',
+  linux_loop ex fuel rest acc hd = Some (fs, hd') ->
+  exists toks, rest = flat_map render toks /\ fs = rev acc ++ map tok_path toks /\
+    Forall (fun p => ex p = Some KDir \/ ex p = Some KRegular) (map tok_path toks).
+Proof.
+  intros ex fuel. induction fuel as [|f IH]; intros rest acc hd fs hd' H; cbn in H; [discriminate|].
+  destruct rest as [|x rest'].
+  - inversion H; subst. exists []. cbn. rewrite app_nil_r. auto.
+  - destruct (next_linux_path (x :: rest')) as [[p i]|] eqn:En; [|discriminate].
+    destruct p as [|p0 p']; [discriminate|].
+    destruct (file_path_ok ex (p0 :: p')) as [d|] eqn:Ef; [|discriminate].
+    apply IH in H. destruct H as (toks & R & F & A).
+    apply next_linux_path_sound in En. destruct En as (t & Tp & Tb).
+    exists (t :: toks). cbn [flat_map map]. repeat split.
+    + rewrite <- R. exact Tb.
+    + rewrite F. cbn [rev]. rewrite <- app_assoc. rewrite Tp. reflexivity.
+    + constructor; auto. rewrite Tp. unfold file_path_ok in Ef.
+      destruct (ex (p0 :: p')) as [[| |]|]; try discriminate; auto.
+Qed.
+
+(* the detector fires only if the chunk (after removing bracketed-paste markers) is exactly a
+   sequence of path tokens  /path<space>  or  '/path'<space>  and os.Stat says that every one of
+   them is a directory or a regular file *)
+Theorem linux_files_sound : forall ex buf fs hd,
+  d_files (detect_drag_linux ex buf) = Some (fs, hd) ->
+  exists b toks, strip_paste buf = Some b /\ b = flat_map render toks /\ map tok_path toks = fs /\
+    Forall (fun p => ex p = Some KDir \/ ex p = Some KRegular) fs.
+Proof.
+  intros ex buf fs hd H. unfold detect_drag_linux in H.
+  destruct (strip_paste buf) as [b|] eqn:Es; [|discriminate]. cbn [d_files] in H.
+  unfold detect_drag_files_on_linux in H.
+  destruct (length b <? N.to_nat drag_min_len)%nat; [discriminate|].
+  destruct b as [|q [|s r]]; try discriminate.
+  match type of H with (if ?c then _ else _) = _ => destruct c; [|discriminate] end.
+  apply linux_loop_sound in H. destruct H as (toks & R & F & A).
+  exists (q :: s :: r), toks. cbn [rev app] in F. subst fs. auto.
+Qed.
+
+(* input pump on Linux: chunk-exact, the hold-back branch is unreachable *)
+Theorem in_transparent_linux :
+  forall dstate trigger detect trig_prompts zmodem_detect zstate zm_init zm_handle zm_busy zm_stop
+         msg_on msg_off is_stop_key o ex cs (s s' : state dstate zstate) ob,
+  idle s = true ->
+  all_quiet dstate trigger detect trig_prompts zmodem_detect zstate zm_init zm_handle zm_busy zm_stop
+            (detect_drag_linux ex) msg_on msg_off is_stop_key o s (map EvIn cs) = true ->
+  in_pump dstate trigger detect trig_prompts zmodem_detect zstate zm_init zm_handle zm_busy zm_stop
+          (detect_drag_linux ex) msg_on msg_off is_stop_key o s cs = (s', ob) ->
+  server_writes ob = cs /\ term_writes ob = [] /\ idle s' = true.
+Proof.
+  intros. eapply in_transparent_nohold_idle; eauto. apply linux_never_holds.
+Qed.
